@@ -89,6 +89,9 @@ NOTES = {
     "C15_5": ("only no-failing-input-found at first run (a scripted L1 error failed every request of the tick, which hides a fallback to another request)",
               "harness/c15: a tick can fail only the FIRST request to the L1 client (every second failing tick of the random stream, two boundary "
               "cases with unfinalized roots above the finalized block and the syncer ahead)"),
+    "C05_8": ("only no-failing-input-found at first run (754 correspondence mismatches: an extra empty block per removed log): the scripted node gave removed logs the canonical block hash",
+              "harness/c05: every second removed log carries the hash of the block it was removed from (an orphan hash), as a real node reports it; "
+              "the unchanged downloader drops removed logs before it looks at them, so nothing else moves"),
     "C17_5": ("MISSED by C17 at first run (C02 reported a broken correspondence, no failing input): the cut was only driven through limitCertSize itself",
               "harness/c17 kind 'flow': every limit case whose certificate the flow can build (first block >= 1, a first certificate is no retry) is "
               "also run through the real NewBaseFlow(...).GetCertificateBuildParamsInternal with stub storage / L2 syncer, and compared with the same "
